@@ -563,7 +563,7 @@ pub fn run(ctx: &Ctx) -> Report {
     let (st, mut failure) = run_items(ctx, "teardown", items, check);
     stats.merge(st);
     if failure.is_none() {
-        let (st, f) = run_proptest(ctx, "teardown", 91, ctx.n(60_000, 1_200_000), strategy, |c: &TCase, st| check(c, st));
+        let (st, f) = run_proptest(ctx, "teardown", 91, ctx.n(60_000, 40_000_000), strategy, |c: &TCase, st| check(c, st));
         stats.merge(st);
         failure = f;
     }
